@@ -64,7 +64,7 @@ MUTANTS: List[Tuple[str, List[Tuple[str, str, str]], List[Tuple[str, str]]]] = [
                                         "                if True:\n                    kwargs[kwarg_name]")], [('C03', 'SW-3'), ('C09', 'SW-3')]),
     ('sw4-hide-forgets-switch', [(S, "            self.hide_switch_result(node_id)\n", "")], [('C09', 'SW-4'), ('C11', 'SW-4')]),
     ('sw1-filter-edge-inverted', [(M, "            return not self.dag.graph.edges[u, v].get(EdgeField.case_branch)", "            return not self.dag.graph.edges[u, v].get(EdgeField.is_switch)")], [('C09', 'SW-1')]),
-    ('sw1-node-filter-dropped', [(M, "filter_edge=_filter, filter_node=_filter_node),", "filter_edge=_filter),")], [('C09', 'SW-1'), ('C10', 'SW-1')]),
+    ('sw1-node-filter-dropped', [(M, "filter_edge=_filter, filter_node=_filter_node),", "filter_edge=_filter),")], [('C10', 'SW-1')]),
     ('on1-mark-after-await', [(M, "        self._node_storage.set_node_as_processed(node_id)\n        await self.ctx.emit_on_node_start(node_id=node_id)",
                                 "        await self.ctx.emit_on_node_start(node_id=node_id)\n        self._node_storage.set_node_as_processed(node_id)")], [('C04', 'ON-1')]),
     ('on2-body-without-mark', [(M, "        self._node_storage.set_node_as_processed(node_id)\n        await self.ctx.emit_on_node_start(node_id=node_id)", "        await self.ctx.emit_on_node_start(node_id=node_id)")], [('C04', 'ON-2')]),
@@ -140,6 +140,25 @@ MUTANTS: List[Tuple[str, List[Tuple[str, str, str]], List[Tuple[str, str]]]] = [
     ('vw2-edges-filtered', [(V, "            for source, target in self._dag.graph.edges\n", "            for source, target in self._dag.graph.edges\n            if self._get_node(source) is not None\n")], [('C20', 'VW-2')]),
     ('vw3-writes-dag', [(V, "        for node_id in self._dag.graph.nodes:\n            node = self._get_node(node_id)\n\n            if node is None:\n                node_type = NodeType.by_prefix(node_id).value", "        for node_id in self._dag.graph.nodes:\n            node = self._get_node(node_id)\n            self._dag.graph.nodes[node_id]['seen'] = True\n\n            if node is None:\n                node_type = NodeType.by_prefix(node_id).value")], [('C20', 'VW-3')]),
     ('vw5-prefix-not-a-type', [(B, "switch_node_id = generate_node_id(NodeType.switch.value, input_mark.name)", "switch_node_id = generate_node_id('sw', input_mark.name)")], [('C20', 'VW-5')]),
+    ('pb1-await-between-value-and-publish', [(M, "            logger.debug('Save the result \"%s\" for the node %s', result, node_id)\n            self._node_storage.set_node_result(node_id, result)\n\n            # TODO: Needs to reorganize saving policy for artifact storage\n            await self.ctx.save_node_result(node_id, result)",
+                                              "            await self.ctx.save_node_result(node_id, result)\n            self._node_storage.set_node_result(node_id, result)")], [('C11', 'PB-1'), ('C03', 'PB-1')]),
+    ('rc6-recurrent-dag-from-filtered-view', [(M, "        recurrent_subgraph = get_connected_subgraph(\n            self.dag.graph, start_from_node_id, node_id, is_recurrent=True, is_oneof=dag.is_oneof,\n        )",
+                                               "        recurrent_subgraph = self._get_reduced_dag(\n            start_from_node_id, node_id, is_recurrent=True, is_oneof=dag.is_oneof,\n        )")], [('C11', 'RC-6'), ('C03', 'RC-6'), ('C09', 'RC-6')]),
+    ('rc7-node-set-ancestors-only', [(G, "    subgraph: DiGraph = dag.subgraph({node_id for path in nx.all_simple_paths(dag, source, dest) for node_id in path})",
+                                      "    subgraph: DiGraph = dag.subgraph((nx.ancestors(dag, dest) | {dest}) - nx.ancestors(dag, source))")], [('C04', 'RC-7'), ('C11', 'RC-7')]),
+    ('st2-switch-result-sees-hidden', [(S, "    def get_switch_result(self, node_id: NodeId, with_hidden: bool = False) -> t.Any:\n        return self.switch_results.get(node_id, with_hidden)",
+                                        "    def get_switch_result(self, node_id: NodeId) -> t.Any:\n        return self.switch_results.get(node_id)")], [('C11', 'ST-2'), ('C09', 'ST-2'), ('C03', 'ST-2')]),
+    ('bd5-marks-cached-on-class', [(B, "            inputs.append((name, annotation))\n\n        return inputs", "            inputs.append((name, annotation))\n\n        setattr(node, '__marks__', inputs)\n        return inputs")], [('C15', 'BD-5'), ('C16', 'BD-5')]),
+    ('bd7-conditional-registration', [(B, "                    self._recurrent_sub_graphs.append(\n                        (\n                            get_node_id(input_mark.start_node),\n                            get_node_id(input_mark.dest_node),\n                        ),\n                    )",
+                                       "                    if input_mark.dest_node not in visited:\n                        self._recurrent_sub_graphs.append((get_node_id(input_mark.start_node), get_node_id(input_mark.dest_node)))")], [('C15', 'BD-7'), ('C16', 'BD-7')]),
+    ('bd8-switch-id-from-decider', [(B, "switch_node_id = generate_node_id(NodeType.switch.value, input_mark.name)", "switch_node_id = generate_node_id(NodeType.switch.value, input_mark.name or get_node_id(input_mark.switch))")], [('C15', 'BD-8'), ('C09', 'BD-8')]),
+    ('vl6-input-node-preseen', [(B, "        visited = {output_node}\n", "        visited = {output_node, input_node}\n")], [('C16', 'VL-6')]),
+    ('as4-save-after-notifications', [(M, "            # TODO: Needs to reorganize saving policy for artifact storage\n            await self.ctx.save_node_result(node_id, result)\n\n        finally:", "        finally:"),
+                                      (M, "            if node_id == dag.dest:\n                logger.debug('The node %s is an output node', node_id)\n                await self.__unlock_itself(node_id)\n", "            if node_id == dag.dest:\n                logger.debug('The node %s is an output node', node_id)\n                await self.__unlock_itself(node_id)\n\n        await self.ctx.save_node_result(node_id, result)\n")], [('C19', 'AS-4')]),
+    ('ex3-flags-only-for-traversed-dags', [(B, "        self._validate_graph()\n\n        is_process_pool_needed, is_thread_pool_needed = self._is_executor_needed()\n", "        self._validate_graph()\n\n        is_process_pool_needed, is_thread_pool_needed = (False, False) if output_node is input_node else self._is_executor_needed()\n")], [('C17', 'EX-3')]),
+    ('er5-store-raw-subscript', [(M, "            return self._node_storage.get_node_result(node_id)\n\n        self._node_storage.set_node_as_processed(node_id)", "            return self._node_storage.node_results[node_id]\n\n        self._node_storage.set_node_as_processed(node_id)")], [('C05', 'ER-5')]),
+    ('ev2-complete-after-cancel', [(M, "            await self.ctx.emit_on_node_complete(node_id=node_id, error=None)\n\n            logger.info('Getting the result after the execution, node_id=%s', node_id)\n            return result\n\n        except Exception as ex:", "            logger.info('Getting the result after the execution, node_id=%s', node_id)\n            return result\n\n        except BaseException as ex:")], [('C14', 'EV-2')]),
+    ('oo6-gate-scans-subset', [(M, "            if dag.is_oneof and self.__has_subgraph_error(dag):", "            if dag.is_oneof and self.__has_subgraph_error(dag.subgraph(list_node_ids)):")], [('C10', 'OO-6')]),
     ('vw6-partial-enum', [(V, "                node_type = node.node_type.value if isinstance(node.node_type, NodeType) else node.node_type", "                node_type = NodeType(node.node_type).value")], [('C20', 'VW-6')]),
 ]
 
@@ -176,6 +195,16 @@ BENIGN: List[Tuple[str, List[Tuple[str, str, str, bool]]]] = [
                          (M, "    async def __unlock_itself(self, node_id: NodeId) -> None:", "    def _publish(self, node_id: NodeId, result: t.Any) -> None:\n        logger.debug('Save the result \"%s\" for the node %s', result, node_id)\n        self._node_storage.set_node_result(node_id, result)\n\n    async def __unlock_itself(self, node_id: NodeId) -> None:", False)]),
     ('viewer-rename-loop-var', [(V, "for source, target in self._dag.graph.edges", "for src, dst in self._dag.graph.edges", False), (V, "schema.Edge(source=source, target=target)", "schema.Edge(source=src, target=dst)", False)]),
     ('run-node-rename-result', [(N, "result = ", "outcome = ", True), (N, "    return result", "    return outcome", False)]),
+    ('ready-predicate-as-lambda', [(M, "                functools.partial(self._is_ready_to_execute, dag, node_id),", "                lambda: self._is_ready_to_execute(dag, node_id),  # noqa: B023", False)]),
+    ('node-order-with-filter', [(M, "        return [\n            node_id for node_id in nx.topological_sort(dag)\n            if (\n                not self._node_storage.exists_processed_node(node_id)\n                if not dag.is_recurrent\n                else True\n            )\n        ]",
+                                  "        return list(filter(\n            lambda node_id: dag.is_recurrent or not self._node_storage.exists_processed_node(node_id),\n            nx.topological_sort(dag),\n        ))", False)]),
+    ('ensure-future', [(M, "task = asyncio.create_task(coro, name=name)", "task = asyncio.ensure_future(coro)", False)]),
+    ('tasks-in-a-list', [(M, "    _coro_tasks: t.Set[asyncio.Task] = field(default_factory=set)", "    _coro_tasks: t.List[asyncio.Task] = field(default_factory=list)", False),
+                         (M, "        self._coro_tasks.add(task)", "        self._coro_tasks.append(task)", False)]),
+    ('switch-notify-without-finally', [(M, "        try:\n            return await self._run_dag(\n                dag=self._get_reduced_dag(\n                    self.dag.input_node,\n                    (self._node_storage.get_switch_result(node_id)).node_id,\n                    is_oneof=dag.is_oneof,\n                ),\n            )\n        finally:\n            # The selected case may have been computed for another consumer already. In that case nothing\n            # is executed here, so the consumers of the switch have to be notified explicitly.\n            await self.__unlock_descendants(node_id)",
+                                         "        outcome = await self._run_dag(\n            dag=self._get_reduced_dag(\n                self.dag.input_node,\n                (self._node_storage.get_switch_result(node_id)).node_id,\n                is_oneof=dag.is_oneof,\n            ),\n        )\n        await self.__unlock_descendants(node_id)\n        return outcome", False)]),
+    ('storage-exists-via-contains', [(S, "        return key in self\n", "        return self.data.__contains__(key)\n", False)]),
+    ('redundant-visited-guard', [(B, "                    _set_visited(input_mark.node)\n", "                    if input_mark.node not in visited:\n                        _set_visited(input_mark.node)\n", False)]),
     ('dag-run-inline-validation', [(D, "        self._start_runtime_validation()\n", "        self._validate_pool_executors()\n", False)]),
 ]
 
